@@ -246,6 +246,22 @@ def rule_link(c, prog):
                         fields = tuple(p for p in pth if not p.startswith("."))
                         if fields:
                             srcs.append((root, fields))
+            # a work list that grows while it is walked must be walked by a loop that looks at it again each time round
+            # (`while let Some(x) = q.pop_front()`, `while i < v.len()`): a `for i in 0..v.len()` fixes the bound on entry
+            for n in core.walk_fn(fn, into_closures=False):
+                fl = core.as_for(n)
+                if fl is None or n.get("k") == "DropTemps":
+                    continue
+                it = core.strip(fl[1])
+                if it.get("k") == "Struct" and it.get("def") == "core::ops::range::Range":
+                    end = {f_["f"]: f_["e"] for f_ in it["fields"]}.get("end")
+                    e0 = core.strip(end) if end else {}
+                    lens = [y for y in core.walk(e0) if y.get("k") == "MethodCall" and y["m"] == "len" and WORKLIST_TY.search(y["recv"].get("ty", "") + y["recv"].get("aty", ""))]
+                    for ln_ in lens:
+                        wl = core.place_root_lid(ln_["recv"])[0]
+                        grows = [x for x in core.walk(fl[2], into_closures=False) if x.get("k") == "MethodCall" and x["m"] in ("extend", "extend_from_slice", "push", "push_back", "append") and core.place_root_lid(x["recv"])[0] == wl]
+                        if grows:
+                            c.violation(R, f"worklist-bound|{name}", f"{name}: the work list is walked by `for .. in 0..list.len()` while the loop body appends to it: the bound is evaluated once, on entry, so only the entries present then (the instance's direct children) are processed and everything appended later — grandchildren and deeper — is left where it was", core.loc(n), instance=f"worklist-src:{name}")
             if srcs:
                 n_src += 1
                 if all("children" in p[:1] for r, p in srcs):
